@@ -1,9 +1,21 @@
-import Dhlldv.Lemmas.Basic
-import Dhlldv.Gen.Framework
+import Dhlldv.Lemmas.LDV
 
-/-! # C06 — limit deposit velocity: ignores its dummy argument (and, under hypotheses, is positive) -/
+/-! # C06 — limit deposit velocity: ignores its dummy argument and is positive on the envelope -/
 
 /-- the result does not depend on the line-speed argument, for every iteration budget of the model and of the code -/
 theorem C06_dummy (fuel : Nat) (v1 v2 Dp d eps nu rhol rhos Cvs max_steps : ℝ) :
     framework.LDV fuel v1 Dp d eps nu rhol rhos Cvs max_steps = framework.LDV fuel v2 Dp d eps nu rhol rhos Cvs max_steps := by
   rfl
+
+/-- on the envelope the limit deposit velocity is positive — for any line-speed argument `v`, any step budget of the code and any model
+budget that covers it (the four damped loops never exhaust it, the friction factor stays positive at every iterate, and the result is at
+least the lower-limit velocity (B + √(B² + 4C))/2 > 0) -/
+theorem C06_pos {vls Dp d eps nu rhol rhos Cvs : ℝ} (h : InE vls Dp d eps nu rhol rhos Cvs) (v max_steps : ℝ) (fuel : Nat)
+    (hb : max_steps ≤ (fuel : ℝ)) :
+    0 < framework.LDV fuel v Dp d eps nu rhol rhos Cvs max_steps :=
+  LDV_pos fuel Cvs Dp d eps max_steps nu rhol rhos v h.Dp_pos h.nu_pos h.eps_pos.le h.rough_le h.d_pos h.Rsd_pos hb
+
+/-- in particular with the default step budget 10 and the budget the model uses at its call sites -/
+theorem C06_pos_default {vls Dp d eps nu rhol rhos Cvs : ℝ} (h : InE vls Dp d eps nu rhol rhos Cvs) (v : ℝ) :
+    0 < framework.LDV 1000 v Dp d eps nu rhol rhos Cvs 10.0 :=
+  C06_pos h v 10.0 1000 (by norm_num)
